@@ -71,6 +71,7 @@ def lockset_units(prop):
 
 #: which unit families each property draws on
 FAMILIES = {
+    "C36": ["timeconv"],
     "C14": ["early", "op", "srcfac", "own", "class", "subscribe", "tramp"],
     "C02": ["own", "class", "subscribe"],
     "C03": ["own", "class", "subscribe"],
@@ -126,6 +127,8 @@ def units_for(prop, tier):
         us.append({"runner": "replay", "prop": prop, "id": "reactivex/subject/replaysubject.py::ReplaySubject"})
     if "timedextra" in fams:
         us.append({"runner": "timedextra", "prop": prop, "id": f"timed-operators-not-under-contract/{prop}"})
+    if "timeconv" in fams:
+        us.append({"runner": "timeconv", "prop": prop, "id": "reactivex/scheduler/scheduler.py::Scheduler.time-conversions"})
     if "early" in fams:
         us.append({"runner": "early", "prop": prop, "id": "early-termination/C14"})
     if "own" in fams:
